@@ -13,6 +13,7 @@ PROPS = ["C11/Props.v"]
 CLAUSE = {1: "read-not-mirrored", 2: "local-value", 3: "write-not-at-target", 4: "other-stored-changed",
           5: "outcome", 6: "failed-op-effect", 7: "forwarding"}
 X, Y, A, B, R, ITEMS, P_, PRE_, Q_, PARENT = 0, 1, 2, 3, 4, 5, 10, 11, 12, 20
+REF = 22      # a delegate reference that is itself a deferring attribute (sixth wave)
 BASES = [X, Y, A, B, R]
 PREFIXES = [P_, PRE_, Q_]
 
@@ -267,12 +268,49 @@ def gen_config(rnd, ctx, depth=None):
             objs.append(ob)
         by_level.append(ids)
     ctx.count("chain-depth:%d" % depth)
-    return classes, objs, by_level
+    # sixth wave: the attribute that REFERENCES the delegate is not a plain stored trait
+    top = [depth] + ([sub_of[depth]] if depth in sub_of else [])
+    rr = rnd.random()
+    if rr < 0.15:
+        # (b) a Property returning the delegate (computed reference over private storage); any deferring level
+        lvl = rnd.randint(1, depth)
+        for ci in [lvl] + ([sub_of[lvl]] if lvl in sub_of else []):
+            classes[ci]["propref"] = True
+        ctx.count("reference:property")
+    elif rr < 0.35 and not any(objs[o].get("link_default") for o in by_level[depth]):
+        # (a) the reference is itself a DelegatesTo attribute: top-level objects reach their delegate through
+        # ref = DelegatesTo('parent') onto an inner object whose `ref` holds it; every deferring attribute names `ref`
+        inn = len(classes)
+        classes.append(dict(prefix=[rnd.choice(PREFIXES)], traits=[[[PARENT], ["Link"]], [[REF], ["Link"]]]))
+        for ci in top:
+            ts = classes[ci]["traits"]
+            for t in ts:
+                if t[1][0] == "Deleg":
+                    t[1] = ["Deleg", [REF]] + list(t[1][2:])
+            ts.insert(1, [[REF], ["Deleg", [PARENT], ["Same"], True]])
+        tops = [objs[o] for o in by_level[depth]]
+        del objs[by_level[depth][0]:]
+        inner = {}
+        for ob in tops:
+            objs.append(dict(cls=inn, dict=[[[REF], ob["dict"][0][1]]]))
+            ob["dict"][0] = [[PARENT], {"obj": len(objs) - 1}]
+            ob["via_default"] = True
+        by_level[depth] = []
+        for k, ob in enumerate(tops):
+            inner[len(objs)] = len(objs) - len(tops) - k + k    # placeholder, fixed below
+            by_level[depth].append(len(objs))
+            objs.append(ob)
+        n_top = len(tops)
+        inner = {o: o - n_top for o in by_level[depth]}
+        ctx.count("reference:DelegatesTo")
+        return classes, objs, by_level, inner
+    return classes, objs, by_level, {}
 
 
 def gen_case(rnd, ctx, maxlen):
-    classes, objs, by_level = gen_config(rnd, ctx)
+    classes, objs, by_level, inner = gen_config(rnd, ctx)
     level_of = {o: l for l, ids in enumerate(by_level) for o in ids}
+    level_of.update({i: 0 for i in inner.values()})      # inner objects only hold the reference
     case = dict(classes=classes, objs=objs, ops=[])
     local = {(i, tuple(e[0])) for i, ob in enumerate(objs) if ob.get("ctor") for e in ob["dict"][1:]}
     lazy = [i for i, ob in enumerate(objs) if ob.get("link_default")]
@@ -296,6 +334,10 @@ def gen_case(rnd, ctx, maxlen):
             if level_of[o] == len(by_level) - 1 and rnd.random() < 0.08:
                 tgt = None          # only on top-level objects: nobody defers to them
             op = ["Set", o, [PARENT], {"obj": tgt} if tgt is not None else None]
+            if o in inner:
+                # the delegate is swapped through either end of the deferring reference
+                tgt = tgt if tgt is not None else rnd.choice(by_level[level_of[o] - 1])
+                op = ["Set", o if rnd.random() < 0.5 else inner[o], [REF], {"obj": tgt}]
             ctx.count("op:swap-delegate" if tgt is not None else "op:delegate-none")
         elif r < 0.27 and local:
             oo, nn = rnd.choice(sorted(local))
@@ -380,6 +422,20 @@ def corpus():
     cs.append(dict(classes=[par_b, ch_b, ch_s], objs=objs_b,
                    ops=[["Set", 0, [P_, X], 10], ["Set", 0, [PRE_, X], 20], ["Set", 2, [X], 21], ["Set", 1, [X], 11],
                         ["Set", 2, [B], 22], ["Set", 0, [PRE_, B], 23], ["Set", 0, [P_, B], 24], ["Del", 2, [B]]]))
+    # sixth wave (rev-F33, C11-w2): the attribute that REFERENCES the prototype is itself a DelegatesTo attribute
+    # (ref = DelegatesTo('parent') onto an inner object whose `ref` holds the prototype): local assignment breaks the
+    # link (prototype changes no longer notify), del restores it (exactly one notification), swaps through either end
+    inn = dict(prefix=[P_], traits=[[[PARENT], ["Link"]], [[REF], ["Link"]]])
+    top_r = dict(prefix=[PRE_], traits=[[[PARENT], ["Link"]], [[REF], ["Deleg", [PARENT], ["Same"], True]],
+                                        [[X], ["Deleg", [REF], ["Same"], False]],
+                                        [[Y], ["Deleg", [REF], ["Explicit", [X]], True]],
+                                        [[R], ["Deleg", [REF], ["Same"], False]]])
+    objs_r = [dict(cls=0, dict=[]), dict(cls=0, dict=[]), dict(cls=1, dict=[[[REF], {"obj": 0}]]),
+              dict(cls=2, dict=[[[PARENT], {"obj": 2}]], via_default=True)]
+    cs.append(dict(classes=[par, inn, top_r], objs=objs_r,
+                   ops=[["Set", 0, [X], 5], ["Set", 3, [X], 9], ["Set", 0, [X], 6], ["Del", 3, [X]], ["Set", 0, [X], 7],
+                        ["Set", 2, [REF], {"obj": 1}], ["Set", 1, [X], 8], ["Set", 3, [REF], {"obj": 0}], ["Set", 0, [X], 11],
+                        ["Set", 3, [R], 20], ["Set", 0, [R], 21], ["Del", 3, [R]], ["Set", 0, [R], 22], ["Set", 3, [Y], 12]]))
     # fifth wave: delegate swapped for a distinct object that compares equal (value-style __eq__ on the classes): the
     # forwarder follows the current delegate, the previous one is no longer listened to
     cs.append(dict(classes=[par_a, ch], objs=objs, eq=True,
